@@ -95,8 +95,8 @@ def _deref_to_index(env):
 
 R6_hoist = Rule("R6", "struct Aliases { $f } impl Aliases { $m }", "",
                 "fn-local items `struct Aliases` / `impl Aliases` are hoisted to module level (items capture nothing); its methods are extracted as separate functions")
-R5_map_max = Rule("R5", ".map(|n| $b)", ".map(|n: W| -> (r: W) requires n != 0 ensures r == $b { $b })",
-                  "closure parameter typed; closure given a `requires n != 0` and an `ensures` restating its literal body")
+R5_map_max = Rule("R5", ".map(|n| $b)", ".map(|n: W| -> (r: W) requires n > 0 ensures r == $b { $b })",
+                  "closure parameter typed; closure given a `requires n > 0` and an `ensures` restating its literal body")
 R8_all = Rule("R8", "!$v:tok.iter().all(|&$w:tok| $pred)",
               "!vec_all(&$v, |$w: W| -> (r_: bool) ensures r_ == ($pred) { $pred })",
               "`slice.iter().all(|&w| P)` -> prelude `vec_all(&v, |w| P)` (assumed: true iff P holds for every element); the predicate text itself stays under verification")
